@@ -8,7 +8,7 @@ from pygen import write_pkg
 from runner import Opts, run_many
 
 PKG = "todopk"
-HEAD = "from __future__ import annotations\nfrom typing import Generic, TypeVar\n\n\ndef _helper():\n    ...\n\n\nclass BaseA:\n    pass\n\n\nclass BaseB:\n    pass\n\n\nclass _PrivBase:\n    def helper(self, q: int) -> int:\n        ...\n\n"
+HEAD = "from __future__ import annotations\nfrom typing import Callable, Generic, TypeVar\n\n\ndef _helper():\n    ...\n\n\nclass BaseA:\n    pass\n\n\nclass BaseB:\n    pass\n\n\nclass _PrivBase:\n    def helper(self, q: int) -> int:\n        ...\n\n"
 
 
 def marker_kinds(todos: list[str]) -> list[str]:
@@ -101,6 +101,8 @@ def params_src(f: set, recv: str = "") -> str:
         ps.append(f"e: list[int, str]{sfx}")
     if "setmulti" in f:
         ps.append(f"f: set[int, str]{sfx}")
+    if "@calltuple" in f:
+        ps.append(f"cbt: Callable[[int], tuple[int, str]]{sfx}")
     if "unknownvalue" in f:
         ps.append("k: bool = not True")
     if "variadic" in f:
